@@ -56,7 +56,7 @@ var Arity = map[string][2]int{
 	"lookup": {2, 3}, "haskey": {2, 3},
 	"basename": {1, 1}, "dirname": {1, 1}, "extname": {1, 1},
 	"csv": {1, -1},
-	"hi": {1, 1}, "hf": {1, 1}, "percent": {1, 4},
+	"hi":  {1, 1}, "hf": {1, 1}, "percent": {1, 4},
 	"bytesize": {1, 2}, "bytesizesi": {1, 2}, "downscale": {1, 2},
 }
 
@@ -876,7 +876,8 @@ func chkClamp(c Call, out string, acceptMarker bool) Verdict {
 	if v == lo || v == hi {
 		cls = "on-a-bound"
 	}
-	return value(out, intOutEquals(out, big.NewInt(v)), cls, strconv.FormatInt(v, 10), acc)
+	// the value may be echoed as it was written ("+5", "007")
+	return value(out, out == c.Args[0] || intOutEquals(out, big.NewInt(v)), cls, strconv.FormatInt(v, 10), acc)
 }
 
 // DOC: "Create exponentially (base-10) increase buckets." For v >= 1 the
